@@ -6,8 +6,8 @@
   deterministic state machine with an arbitrary, possibly state dependent, exposure gate), every start
   state, every list of calls (no length bound), normal and oneway mode.  The serializer enters through
   `pre` (does `dumpsCall(…, kwargs=None)` succeed on the client); the obligations `C11_gen_…` re-prove,
-  from facts extracted from the current source, that it does for all four serializers and that the code
-  still has the shape the model was written against.
+  from facts extracted from the current source, that it does for all four serializers and that the real code,
+  probed on a fixed table of requests and result lists, does what the model says.
 -/
 import PyroModel.Batch
 import PyroModel.Gen.C11
@@ -203,31 +203,84 @@ theorem C11_gen_wrapper_transportable :
     wrapperInReplyList.map (·.1) = ["json", "marshal", "msgpack", "serpent"] ∧
     ∀ p ∈ wrapperInReplyList, p.2 = true := by decide
 
-open Pyro.Gen.C11 in
-/-- server.py batch loop: gate (the same `_get_attribute` as the single call) outside the `try`, the call
-    inside it, `except Exception` appends a wrapper and breaks, `else` appends the result; oneway returns
-    before the reply is built.  `sameSerializeOrFallback`: the failed batch member and the failed plain call
-    both hand the raised exception to the one function `Daemon._serializeException` (the exception itself, or
-    the describing PyroError when the instance cannot be serialised) — that is why `Obj.apply`'s `exc e` may be
-    read as "the exception as sent": the same pure function of the raised exception on both paths. -/
-theorem C11_gen_server_shape :
-    batchLoopShape = ["gate:_get_attribute", "try[", "call", "]", "except:Exception[", "hook", "format-traceback",
-                      "serialize-or-fallback", "append:wrapper", "break", "]", "else[", "append:result", "]"] ∧
-    singleCallGate = "_get_attribute" ∧ onewayReturnsBeforeReply = true ∧ batchedFlagAfterLoop = true ∧
-    sameSerializeOrFallback = true := by decide
+/-! #### Behavioural probes of the real code (taken by the extractor on every run) against the model
+
+`probeObj` is the model of the extractor's probe object (harness/props/c11_extract.py, class Probe): the state is the
+number of calls executed; name 0 `ok` returns its argument, 1 `boom` raises exception `a` (ValueError(a)), 2 `unsend`
+raises an exception whose instance cannot be serialised (as sent: 900, the describing PyroError); the gate refuses
+3 (unexposed, 103), 4 (private, 101) and everything else (missing, 102).  All of them count the execution first. -/
+
+def probeObj : Obj Nat Nat Nat Nat Nat where
+  gate := fun _ n => if n ≤ 2 then none else if n = 3 then some 103 else if n = 4 then some 101 else some 102
+  apply := fun s n a => if n = 0 then (s + 1, .ok a) else if n = 1 then (s + 1, .exc a) else (s + 1, .exc 900)
+
+def encItem : Item Nat Nat → Nat
+  | .val v => 2 * v
+  | .wrapped e => 2 * e + 1
+
+def decItem (t : Nat) : Item Nat Nat := if t % 2 = 0 then .val (t / 2) else .wrapped (t / 2)
+
+/-- wire form of a reply as the extractor prints it: nothing | exception response | result list with FLAGS_BATCH -/
+def encReply : Option (Reply Nat Nat) → List Nat
+  | none => []
+  | some (.error e) => [0, e]
+  | some (.results items) => 1 :: items.map encItem
+
+def encCallOut : CallOut Nat Nat → List Nat
+  | .ok v => [2, v]
+  | .gateErr e => [0, e]
+  | .raised e => [0, e]
 
 open Pyro.Gen.C11 in
-/-- client.py: results generator (wrapper → raiseIt, else yield), raiseIt raises the wrapped exception,
-    `_pyroInvokeBatch` sends one `<batch>` request with kwargs None and FLAGS_BATCH (| FLAGS_ONEWAY),
-    `BatchProxy.__call__` submits once, clears the list, returns the generator unless oneway;
-    `_BatchedRemoteMethod.__call__` appends `(name, args, kwargs)`. -/
-theorem C11_gen_client_shape :
-    resultsGenShape = ["for", "if-isinstance:_ExceptionWrapper[", "raiseIt", "]", "else[", "yield", "]"] ∧
-    raiseItShape = ["raise:self.exception"] ∧
-    invokeBatchShape = ["flags=FLAGS_BATCH", "if:oneway[", "flags|=FLAGS_ONEWAY", "]",
-                        "return:_pyroInvoke(<batch>,calls,None,flags)"] ∧
-    batchCallShape = ["claim", "results=_pyroInvokeBatch(calls,oneway)", "calls=[]", "if-not:oneway[", "return:generator", "]"] ∧
-    batchedMethodShape = ["append:(name,args,kwargs)"] := by decide
+/-- The real `Daemon.handleRequest`, driven with real batch requests (normal and oneway) for the fixed scenario
+    table, did exactly what `serverBatch` says for `probeObj`: same number of executed calls at the moment
+    handleRequest returned (stop at the first failure; a oneway batch runs in-line), same reply on the wire
+    (result list in call order with the wrapper last and FLAGS_BATCH set; the gate's AttributeError as an
+    exception response with the collected results dropped; nothing at all for oneway; the describing PyroError
+    for an exception instance that cannot be serialised). -/
+theorem C11_gen_server_probes :
+    serverProbes.map (fun p => (p.1, p.2.1)) =
+      [(false, []), (false, [(0, 1), (0, 2), (0, 3)]), (false, [(0, 1), (1, 7), (0, 3)]), (false, [(1, 7), (0, 1)]),
+       (false, [(0, 1), (3, 0), (0, 3)]), (false, [(0, 1), (0, 2), (4, 0), (0, 3)]), (false, [(5, 0), (0, 1)]),
+       (false, [(0, 1), (2, 0), (0, 2)]),
+       (true, []), (true, [(0, 1), (0, 2), (0, 3)]), (true, [(0, 1), (1, 7), (0, 3)]), (true, [(0, 1), (3, 0), (0, 3)])] ∧
+    serverProbes.all (fun p =>
+      ((serverBatch probeObj p.1 0 p.2.1).1, encReply (serverBatch probeObj p.1 0 p.2.1).2) == (p.2.2.1, p.2.2.2)) = true := by
+  decide
+
+open Pyro.Gen.C11 in
+/-- Plain single calls on the real `handleRequest` answer as `serverCall` says: the same gate exceptions as inside a
+    batch, a raised exception as an exception response, and the same describing PyroError (900) for the
+    unserialisable instance as the batch member got — the "exception as sent" is one function on both paths. -/
+theorem C11_gen_single_probes :
+    singleProbes.map (·.1) = [(0, 5), (1, 7), (2, 0), (3, 0), (4, 0), (5, 0)] ∧
+    singleProbes.all (fun p =>
+      ((serverCall probeObj 0 p.1).1, encCallOut (serverCall probeObj 0 p.1).2) == (p.2.1, p.2.2)) = true := by
+  decide
+
+open Pyro.Gen.C11 in
+/-- What a caller got out of a real `BatchProxy` (over a scripted proxy) for the fixed table of result lists is what
+    `resultsGen` says: values in order up to the first wrapper, then that wrapper's exception; an exception OBJECT
+    that is a plain value (ids 50, 51) is yielded like any other value. -/
+theorem C11_gen_generator_probes :
+    generatorProbes.map (·.1) =
+      [[], [2, 4, 6], [2, 15, 6], [15], [2, 4, 19], [2, 100, 4], [102, 15], [104, 106, 2]] ∧
+    generatorProbes.all (fun p => resultsGen (p.1.map decItem) == (p.2.1, p.2.2)) = true := by
+  decide
+
+open Pyro.Gen.C11 in
+/-- Observed from outside on the real classes: `_BatchedRemoteMethod`/`BatchProxy` forward the collected calls in call
+    order with their arguments (a dotted name as one name), submit once per `batch()` and start over with an empty
+    list, `oneway=True` is forwarded and returns `None`; `Proxy._pyroInvokeBatch` sends one `<batch>` request with
+    the calls and FLAGS_BATCH (| FLAGS_ONEWAY iff oneway); `_ExceptionWrapper.raiseIt` raises the wrapped object. -/
+theorem C11_gen_client_facts :
+    clientFacts.map (·.1) =
+      ["calls-forwarded-in-call-order-with-args-and-kwargs", "dotted-name-forwarded-as-one-name",
+       "normal-submit-is-not-oneway-and-returns-the-results", "one-submit-per-call-and-list-cleared-after-submit",
+       "oneway-forwarded-and-returns-None",
+       "invokeBatch-sends-one-<batch>-request-with-the-calls-and-hands-back-the-reply",
+       "invokeBatch-flags-batch-and-oneway-iff-oneway", "raiseIt-raises-the-wrapped-exception-object"] ∧
+    ∀ p ∈ clientFacts, p.2 = true := by decide
 
 /-! ### Non-vacuity: a concrete stateful object (a counter that refuses to go above 2) -/
 
